@@ -134,7 +134,10 @@ def affine_spec(ctx, bound=8):
             "tr": [rng.randint(-20, 20) for _ in range(3)], "ub": rng.choice([0, 0, 1, 2]),
             "vdtype": rng.choice(["float32", "float32", "float64"]),
             "tdtype": rng.choice(["uint32", "uint32", "int32", "int64"]),
-            "shape": rng.choice(["3x4", "4x4"]), "mdtype": rng.choice(["float64", "float64", "int"])}
+            "shape": rng.choice(["3x4", "4x4"]), "mdtype": rng.choice(["float64", "float64", "int"]),
+            # how the caller holds the arrays: read-only (as returned by the package's
+            # reader) and / or passed through the function once before
+            "readonly": rng.random() < 0.3, "twice": rng.random() < 0.3}
 
 
 UNIT_CHANGES = [-3, -6, 3, 6]
